@@ -27,8 +27,9 @@ def e_Call(self: Engine, node: ast.Call, st: State):
     if d == "warnings.warn":
         self.dropped.add("warnings.warn")
         return [(OK, st, NONE)]
-    if any(isinstance(a, ast.Starred) for a in node.args) or any(k.arg is None for k in node.keywords):
+    if any(isinstance(a, ast.Starred) for a in node.args):
         raise Unsupported("star-args in call")
+    # `**mapping` is only handed through to callees with an assumed handler (it arrives under the key "**")
 
     # special forms that must see the AST
     if isinstance(node.func, ast.Name) and node.func.id in ("next", "any", "all", "list", "set", "sorted", "sum", "frozenset", "tuple", "max", "min") \
@@ -39,7 +40,7 @@ def e_Call(self: Engine, node: ast.Call, st: State):
         def with_args(s2, argvals):
             n = len(node.args)
             args = argvals[:n]
-            kwargs = {k.arg: v for k, v in zip(node.keywords, argvals[n:])}
+            kwargs = {(k.arg if k.arg is not None else "**"): v for k, v in zip(node.keywords, argvals[n:])}
             # which arguments are plain local names (needed when a contract says the callee mutates that argument)
             self._arg_locals = ([a.id if isinstance(a, ast.Name) else None for a in node.args],
                                 {k.arg: (k.value.id if isinstance(k.value, ast.Name) else None) for k in node.keywords})
@@ -320,6 +321,10 @@ def contract_args(self, contract: Contract, key, recv, args, kwargs, st):
         else:
             raise Unsupported(f"missing argument {n} for {contract.key}")
         ty = contract.params[n]
+        if isinstance(v, ExcVal) and isinstance(ty, Atom):
+            v = v.fields["payload"] if "payload" in v.fields and isinstance(v.fields["payload"], Val) and v.fields["payload"].ty == ty else mk_fresh(ty, "excobj")
+        if isinstance(v, ObjRef) and not isinstance(ty, ObjT) and self.has_field(v, "view"):
+            v = self.heap_read(st, v, "view")    # an object passed where the contract speaks about its record view
         if isinstance(ty, ObjT):
             out[n] = v
         else:
@@ -360,6 +365,12 @@ def apply_contract(self, st, contract: Contract, recv, args, kwargs):
     arg_locals = getattr(self, "_arg_locals", ([], {}))
     self._arg_locals = ([], {})
     bound = self.contract_args(contract, contract.key, recv, args, kwargs, st)
+    top = getattr(self, "top_contract", None)
+    if top is contract and getattr(contract, "decreases", None) is not None:
+        # recursive call: the measure is non-negative at entry and strictly smaller at the call (termination + well-founded use of the contract)
+        m_now = contract.decreases(Ctx(self, st, recv, bound))
+        m_entry = st.ghost["$measure0"]
+        self.oblige(st, z3.And(m_entry >= 0, m_now < m_entry, m_now >= 0), f"call:{_short(contract.key)}:decreases", "requires")
     mutable = list(getattr(contract, "mutable_params", ()))
     local_of = {}
     if mutable:
